@@ -525,6 +525,13 @@ class Executor(object):
                 return p
             if o.cls in ("Counter", "dict"):
                 return self.contracts.map_store(self, p, base, idx, v, ln)
+            h = self.contracts.methods.get((o.cls, "__setitem__"))
+            if h:
+                return h(self, p, base, idx, v, ln)
+        if not isinstance(base, Ref):
+            h = self.contracts.methods.get((type(base).__name__, "__setitem__"))
+            if h:
+                return h(self, p, base, idx, v, ln)
         raise Unsupported("item store on %r[%r] line %s" % (base, idx, ln))
 
     def store_slice(self, base, sl, v, p, fctx, ln):
@@ -735,6 +742,13 @@ class Executor(object):
                 return o.f["items"][idx]
             if o.cls in ("dict", "Counter"):
                 return self.contracts.map_load(self, p, base, idx, ln)
+            h = self.contracts.methods.get((o.cls, "__getitem__"))
+            if h:
+                return h(self, p, base, idx, ln)
+        if not isinstance(base, (Ref, dict, tuple, bytes, str, Opt)) and not is_z3(base):
+            h = self.contracts.methods.get((type(base).__name__, "__getitem__"))
+            if h:
+                return h(self, p, base, idx, ln)
         if isinstance(base, dict):
             if isinstance(idx, (int, str, bytes)):
                 if idx not in base:
@@ -757,6 +771,17 @@ class Executor(object):
             n = o.f["len"]
             f2 = dict(o.f)
             f2["len"] = z3.If(n >= 1, n - 1, 0)
+            f2.pop("on_append", None)
+            p.mut += 1
+            return p.new_obj("list", f2)
+        if isinstance(base, Ref) and p.obj(base).cls == "list" and "len" in p.obj(base).f and lo is None and hi is not None:
+            # xs[:h] of an abstract list, h symbolic: the first min(max(h, 0) or len+h, len) elements
+            o = p.obj(base)
+            n = o.f["len"]
+            h = to_z3(self.unwrap(hi, p, "slice", ln))
+            h2 = z3.If(h < 0, z3.If(n + h < 0, 0, n + h), z3.If(h > n, n, h))
+            f2 = dict(o.f)
+            f2["len"] = h2
             f2.pop("on_append", None)
             p.mut += 1
             return p.new_obj("list", f2)
@@ -945,6 +970,9 @@ class Executor(object):
             o = p.obj(container)
             if o.cls in ("set", "dict", "Counter"):
                 return self.contracts.map_contains(self, p, container, item, ln)
+            h = self.contracts.methods.get((o.cls, "__contains__"))
+            if h:
+                return h(self, p, container, item, ln)
         if (isinstance(container, bytes) or (is_z3(container) and container.sort() == BYTES)) and (isinstance(item, bytes) or (is_z3(item) and item.sort() == BYTES)):
             return z3.Contains(to_z3(container), to_z3(item))
         raise Unsupported("`in` on %r line %s" % (container, ln))
